@@ -50,6 +50,11 @@ type realRun struct {
 
 // runReal executes the printed program on the real goja with the given decision schedule.
 func runReal(src string, decide func(k int) int, maxTicks int64) (rr realRun) {
+	return runRealLimit(src, decide, maxTicks, 0)
+}
+
+// runRealLimit: depthLimit > 0 sets a call-depth limit for main() (a resource-exhaustion fault).
+func runRealLimit(src string, decide func(k int) int, maxTicks int64, depthLimit int) (rr realRun) {
 	rt := goja.New()
 	probes := 0
 	var payload *intrPayload
@@ -115,8 +120,14 @@ func runReal(src string, decide func(k int) int, maxTicks int64) (rr realRun) {
 		rr.outcome = "SETUP-ERROR: " + err.Error()
 		return
 	}
+	if depthLimit > 0 {
+		rt.SetMaxCallStackSize(depthLimit)
+	}
 	v, err := rt.RunString("main(0)")
+	var so *goja.StackOverflowError
 	switch {
+	case errors.As(err, &so):
+		rr.outcome = "stack-overflow"
 	case err == nil:
 		rr.outcome = "normal:" + describe(v)
 	default:
@@ -314,6 +325,32 @@ func (e *ctlsim) Run(t *core.Tape, want bool) *core.Result {
 		}
 	}
 
+	// resource-exhaustion fault: the same run under a call-depth limit. A stack overflow is uncatchable: what the run
+	// logged must be a prefix of what it logs without the limit (no catch, finally or iterator return() ran because of it).
+	if res.Violation == nil && S.Draw(8) == 7 {
+		limit := 1 + S.Draw(12)
+		rl := runRealLimit(src, decide, 3000000, limit)
+		switch {
+		case rl.panicV != nil:
+			fail("go-panic", fmt.Sprintf("a Go panic escaped from goja under call-depth limit %d: %v", limit, rl.panicV))
+		case rl.outcome == "stack-overflow":
+			res.Count("fault.depth-limit", 1)
+			for i := range rl.log {
+				if i >= len(rr.log) || rl.log[i] != rr.log[i] {
+					fail("stack-overflow-observed-by-script", fmt.Sprintf("under call-depth limit %d event #%d is %s, the run without the limit has %s there: script code ran because of the stack overflow", limit, i, evAt(rl.log, i), evAt(rr.log, i)))
+					break
+				}
+			}
+			if s := rl.state; res.Violation == nil && (s.CallStack != 0 || s.TryStack != 0 || s.IterStack != 0 || s.RefStack != 0 || s.Sp != 0 || s.JobQueue != 0) {
+				fail("idle-invariant", fmt.Sprintf("runtime not idle-clean after a stack overflow (limit %d): %+v", limit, s))
+			}
+		default:
+			if firstDivergence(rl.log, rr.log) >= 0 || rl.outcome != rr.outcome {
+				fail("depth-limit-not-reached-but-differs", fmt.Sprintf("call-depth limit %d was not hit, yet the run differs from the run without a limit (%s vs %s)", limit, rl.outcome, rr.outcome))
+			}
+		}
+	}
+
 	// signature: which features the program has and which kinds of decisions were taken
 	var fs []string
 	for f := range feat {
@@ -343,7 +380,7 @@ func init() {
 			"statement completion values (UpdateEmpty) are not compared, only event logs, function results and exceptions",
 			"Error objects are compared by constructor name only",
 		},
-		FaultKinds: []string{"interrupt"},
+		FaultKinds: []string{"interrupt", "depth-limit"},
 	})
 	core.Register(&core.Spec{
 		Property: "C09", EngineName: "ctlsim",
@@ -355,6 +392,6 @@ func init() {
 			"the reference interpreter runs each generator/async activation as a coroutine (strict hand-off, deterministic) and implements the specification's generator state machine and a FIFO job queue for async functions over ints and native promises",
 			"async function* and for-await are not supported by goja's parser and are excluded",
 		},
-		FaultKinds: []string{"interrupt"},
+		FaultKinds: []string{"interrupt", "depth-limit"},
 	})
 }
